@@ -62,6 +62,8 @@ def plan(tier, seed):
                 yield ("podreplay", st_, d, text)
         for text, ts in corp:
             yield ("fire", text, ts)
+        # the rule base is the same after calls in which a production raised (reference times at the edge of the datetime range, a date instead of a datetime)
+        yield ("after_fault",)
 
     nprobe = sum(len(PROBE_ALPHA) ** k for k in (1, 2, 3))
     space = {"patterns": len(ids), "probe_strings": nprobe, "corpus_sentences": len(corp), "rules": len(RU.rules), "pattern_x_probe": len(ids) * (nprobe + len(corp))}
@@ -129,6 +131,35 @@ def run_case(case):
         st["rules_defined"] = len(defs)
         st["rules_registered_elsewhere"] = len(extra)
         return {"o": "ast", "nt": True, "v": v, "st": st}
+    if kind == "after_fault":
+        from datetime import date as _date, datetime as _dt
+
+        cp = lib()[0]
+        before = {n: (id(w), len(preds)) for n, (w, preds) in RU.rules.items()}
+        ids_before = (sorted(RU._regex), dict(RU._regex_str))
+        raised = 0
+        for text, ts in [("tomorrow", _dt(9999, 12, 31, 12, 0)), ("übermorgen", _dt(9999, 12, 31, 12, 0)), ("eom", _dt(9999, 12, 31, 12, 0)), ("eoy", _dt(9999, 12, 31, 12, 0)), ("next monday", _dt(9999, 12, 30, 12, 0)),
+                         ("monday", _dt(9999, 12, 31, 12, 0)), ("yesterday", _dt(1, 1, 1, 0, 0)), ("now", _date(2020, 1, 1)), ("evening", _date(2020, 1, 1)), ("8 pm", _dt(9999, 12, 31, 21, 0))]:
+            try:
+                cp(text, ts=ts, timeout=0)
+            except Exception:
+                raised += 1
+        after = {n: (id(w), len(preds)) for n, (w, preds) in RU.rules.items()}
+        if after != before:
+            lost = sorted(set(before) - set(after))
+            changed = sorted(n for n in before if n in after and before[n] != after[n])
+            v.append(viol({"kind": "rule_base_changed_by_failed_call"}, "after {} calls that raised inside a production the registry differs: lost {}, added {}, replaced {}".format(raised, lost, sorted(set(after) - set(before)), changed)))
+        if (sorted(RU._regex), dict(RU._regex_str)) != ids_before:
+            v.append(viol({"kind": "pattern_tables_changed_by_failed_call"}, "pattern tables differ after calls that raised"))
+        # and ordinary calls still resolve
+        from datetime import datetime as _d2
+
+        for text, exp in (("tomorrow", (2018, 3, 8)), ("yesterday", (2018, 3, 6)), ("eom", (2018, 3, 31))):
+            r = cp(text, ts=_d2(2018, 3, 7, 12, 43), timeout=0)
+            got = None if r is None or r.resolution is None else (getattr(r.resolution, "year", None), getattr(r.resolution, "month", None), getattr(r.resolution, "day", None))
+            if got != exp:
+                v.append(viol({"kind": "rule_dead_after_failed_call", "text": text}, "after calls that raised, {!r} at 2018-03-07 resolves to {} (expected {})".format(text, got, exp)))
+        return {"o": "after_fault", "nt": raised > 0, "v": v, "st": {"calls_that_raised": raised}}
     if kind == "registry":
         for n, (w, preds) in RU.rules.items():
             for p0, p1 in zip(preds[:-1], preds[1:]):
